@@ -1653,7 +1653,10 @@ pub fn oracle_c09(ctx: &Ctx, out: &mut Out, s: &Subject, rng: &mut Rng) {
                 continue;
             }
             let mut solver = choice.into_solver();
-            set_budgets(Some(WORK_BUDGET));
+            // (F33 shape: every step is heavier than the one before and the nesting of the answer
+            // ends in a native stack overflow long before the ordinary budget; a small budget shows
+            // the same divergence)
+            set_budgets(Some(if s.coinductive && s.text.contains("forall<'") { 1500 } else { WORK_BUDGET }));
             let r = catch_full(|| solver.solve(db, g));
             let work = chalk_recursive::verif::work() + chalk_engine::verif_work::work();
             set_budgets(None);
@@ -1675,7 +1678,11 @@ pub fn oracle_c09(ctx: &Ctx, out: &mut Out, s: &Subject, rng: &mut Rng) {
                         set_budgets(None);
                         nocache_only = !is_budget_panic(&r2);
                     }
-                    let c = if rec && s.text.contains("not {") {
+                    let c = if s.coinductive && has_unknowns(gt) && s.text.contains("forall<'") {
+                        // F33: a custom clause over lifetimes whose condition introduces a fresh
+                        // lifetime per unfolding: the region constraints of the answer grow for ever
+                        if rec { "recursive_coinductive_region_constraints_grow" } else { "slg_coinductive_region_constraints_grow" }
+                    } else if rec && s.text.contains("not {") {
                         "recursive_negative_cycle_diverges"
                     } else if nocache_only {
                         "recursive_nocache_exponential_reprove"
